@@ -1,7 +1,7 @@
 ---------------------------- MODULE Helpers_Trace ----------------------------
 (* Judge of recorded src_install scripts (C33).  Events of one script (tid), in order (i = 1..):
    {tid, i, eapi, pf, pn,
-    op, path, mode, own, h, a  the step, as in Helpers_Cases (destination command or helper call)
+    op, path, mode, own, text, h, a  the step, as in Helpers_Cases (destination command or helper call)
     rc                       call: exit status of the helper executable (0 = accepted), -1 = it died
     img                      call: the image directory listed AFTER the call:
                              [{path, kind, mode, cid, lnk, lnkabs, lnkc, keep, ino}]           }
